@@ -229,9 +229,19 @@ func (w *concWorker) step(i int) uint64 {
 			buf.Write(GenDoc(c, DocSpec{Family: FamMixed, Target: 20 + c.Intn("sz", 100), OneLine: true, MaxDepth: 3, StrMax: 30}).B)
 			buf.WriteByte('\n')
 		}
+		if c.Intn("blanktail", 4) == 0 {
+			buf.WriteString([]string{"\n", " \n", "\n\n"}[c.Intn("blankkind", 3)])
+		}
 		ref := RefParseND(buf.Bytes())
 		res := make(chan simdjson.Stream, 4)
-		simdjson.ParseNDStream(bytes.NewReader(buf.Bytes()), res, nil)
+		var rd io.Reader = bytes.NewReader(buf.Bytes())
+		switch c.Intn("rdkind", 3) {
+		case 1:
+			rd = &lineReader{data: buf.Bytes()} // one line per Read
+		case 2:
+			rd = &lineReader{data: buf.Bytes(), max: 1 + c.Intn("rdmax", 7)}
+		}
+		simdjson.ParseNDStream(rd, res, nil)
 		var got []*MV
 		var last error
 		for v := range res {
@@ -561,4 +571,30 @@ func runConcRace(r *Run) {
 			}
 		}
 	}
+}
+
+// lineReader returns one line (or at most max bytes) per Read.
+type lineReader struct {
+	data []byte
+	off  int
+	max  int
+}
+
+func (l *lineReader) Read(p []byte) (int, error) {
+	if l.off >= len(l.data) {
+		return 0, io.EOF
+	}
+	n := bytes.IndexByte(l.data[l.off:], '\n') + 1
+	if n <= 0 {
+		n = len(l.data) - l.off
+	}
+	if l.max > 0 && n > l.max {
+		n = l.max
+	}
+	if n > len(p) {
+		n = len(p)
+	}
+	copy(p, l.data[l.off:l.off+n])
+	l.off += n
+	return n, nil
 }
